@@ -22,3 +22,30 @@ CHECKS["C12"] = {
         "post-processor sequence is observed on a probe component created after all user post-processors",
     ],
 }
+
+CHECKS["C01"] = {
+    "level": "exploration",
+    "jobs": [
+        J("identity", "c01", "TestIdentity", 3000, 60000, 12),
+        J("scale", "c01", "TestScale", 6, 60, 4),
+    ],
+    "assumptions": [
+        "a *T pointer field cannot hold a substitute object, so the wrapping post-processor only wraps node variants that no pointer-typed field references",
+        "Go map iteration order inside the container (GetRegisteredComponents, property groups) is not controlled, only sampled",
+    ],
+}
+
+CHECKS["C02"] = {
+    "level": "exploration",
+    "jobs": [
+        J("cycles", "c02", "TestCycles", 2500, 60000, 10),
+        J("exh2", "c02", "TestExhaustive2", None, None),
+        J("exh3", "c02", "TestExhaustive3", None, None, 4, replay_json=True),
+        J("exh4", "c02", "TestExhaustive4", None, None, 16, tiers=["thorough"]),
+        J("scale", "c02", "TestScale", 5, 60, 4),
+    ],
+    "assumptions": [
+        "termination is decided up to a deterministic step budget (one creation per component name, creation nesting depth <= #components+40)",
+        "the model takes self-exclusion and required/optional from the property statement; ties are accepted within the top-ranked set",
+    ],
+}
